@@ -618,7 +618,8 @@ def check_unpickle(env, S, C, rec, ctxinfo, fail, stats):
         if ctxinfo['r2'] and any(x in ctxinfo['stale_rows'] for x in ctxinfo['preloaded']):
             stats['coll_skipped_preloaded_stale'] = stats.get('coll_skipped_preloaded_stale', 0) + 1
             return
-        items = list(u)
+        ok, items = guarded(fail, 'unpickle_error', where + ': iterating the unpickled collection', list, u)
+        if not ok: return
         exp = rec['oids']
         ok = len(items) == len(exp) and set(id(x) for x in items) == set(id(env.obj(S, x)) for x in exp)
         if not ok:
@@ -632,7 +633,9 @@ def check_unpickle(env, S, C, rec, ctxinfo, fail, stats):
         for x, oid in zip(sorted(items, key=lambda o: exp.index(_oid_of(env, S, o, exp))), exp):
             check_unpickled_object(env, S, x, oid, ctxinfo, fail, where)
     elif kind == 'query':
-        items = list(u)
+        ok, items = guarded(fail, 'unpickle_error', where + ': iterating the unpickled query result',
+                            lambda: list(u)[:len(u)])
+        if not ok: return
         if len(items) != len(rec['oids']) or len(u) != len(rec['oids']):
             fail('pickle_query', '%s: unpickled result has %d items, the pickled one had %d'
                  % (where, len(items), len(rec['oids']))); return
